@@ -100,7 +100,7 @@ add(
     "files of every live path; pid/counter-bearing file names normalised) with chains of clean stops at generated split points, for generated "
     "seeds (not only 0), sh/wf moves, delete_old; repeated runs; restart of a finished run is a no-op. Several workers: kills with jobs in flight, "
     "also after an earlier restart: the jobs in flight as of the last completed step are exactly the first jobs the restart issues; same "
-    "(seed, schedule, kill points) twice gives identical files. Sampled; plug-in lattice engine (exact integers at six decimals). TurtleMD part: the "
+    "(seed, schedule, kill points) twice gives identical files - the repeat also after an unrelated simulation ran in the same interpreter. Sampled; plug-in lattice engine (exact integers at six decimals). TurtleMD part: the "
     "repository's double-well example (Langevin, xyz files, order parameter rounded to six decimals, sh/wf, caps incl. 0.0, delete_old) straight vs. chains. "
     "Fresh-interpreter part: the same input run twice through infretis.bin.internalrun (real scheduler and process pool) in new interpreters with different "
     "PYTHONHASHSEED, single- and two-engine layouts: identical files. Exhaustive part (checks/enumsys.py): in every reachable state of small systems (3-5 ensembles, "
